@@ -100,6 +100,32 @@ theorem tlookup_append_new {β : Type} (k : List Str) (c0 : β) (t : List (List 
     · simp at h
     · next hk => simp [tlookup, hk, ih h]
 
+omit [Val V] in
+theorem terase_cons {β : Type} (k : List Str) (kv : List Str × β) (t : List (List Str × β)) :
+    terase k (kv :: t) = if kv.1 = k then terase k t else kv :: terase k t := by
+  unfold terase
+  by_cases h : kv.1 = k <;> simp [List.filter, h]
+
+omit [Val V] in
+theorem tlookup_terase {β : Type} (k k' : List Str) (t : List (List Str × β)) :
+    tlookup k' (terase k t) = if k' = k then none else tlookup k' t := by
+  induction t with
+  | nil => simp [terase, tlookup]
+  | cons kv t ih =>
+    rw [terase_cons]
+    by_cases hk : kv.1 = k
+    · rw [if_pos hk, ih]
+      by_cases hk' : k' = k
+      · simp [hk']
+      · have : ¬ kv.1 = k' := fun e => hk' (e ▸ hk)
+        simp [hk', tlookup, this]
+    · rw [if_neg hk]
+      simp only [tlookup]
+      by_cases hk' : kv.1 = k'
+      · have : ¬ k' = k := fun e => hk (hk' ▸ e)
+        simp [hk', this]
+      · simp [hk', ih]
+
 theorem getChild_lookup (m : Metric V) (key : List Str) :
     tlookup key (getChild m key).1.children = some (getChild m key).2 := by
   unfold getChild
